@@ -25,9 +25,9 @@ CONF = {
     "C10": dict(universes=["c10", "core"], probes=False, extra=False),
     "C11": dict(universes=["c11", "core"], probes=False, extra=False),
     "C12": dict(universes=["core", "c10", "c11"], probes=True, extra=True),
-    "C16": dict(universes=["core", "c11"], probes=True, extra=True),
+    "C16": dict(universes=["core", "c16", "c11"], probes=True, extra=True),
     "C17": dict(universes=["core", "c18", "c09"], probes=True, extra=False),
-    "C18": dict(universes=["c18", "core"], probes=False, extra=True),
+    "C18": dict(universes=["c18", "core"], probes=True, extra=True),
 }
 
 SIZES = {
@@ -81,10 +81,38 @@ def extra_ops(rnd):
     return {"k": "xdel", "a": rnd.randint(0, 1), "key": k}
 
 
+def relevant_edge(prop, u):
+    """which edges of the cover exercise the property (used to stratify the sample)"""
+    ev = {e["id"]: e for e in u["events"]}
+
+    def pred(res, h):
+        last = h[-1]
+        k, a = last["k"], last.get("a", 0)
+        e = ev.get(a) if k == "store" else None
+        if prop == "C04":
+            return (k == "store" and res == "ok") or k == "reopen"
+        if prop == "C09":
+            return e is not None and e["addr"] != 0
+        if prop == "C10":
+            return e is not None and e["kind"] == 5 and any(
+                (d["t"] == "e" and d["id"] in ev and ev[d["id"]]["au"] != e["au"]) or (d["t"] == "a" and d["aau"] != e["au"])
+                for d in e["dels"])
+        if prop == "C11":
+            return e is not None and (e["kind"] == 5 or res == "deleted")
+        if prop == "C12":
+            return k == "store" and res != "ok"
+        if prop == "C16":
+            return k in ("reopen", "rebuild")
+        if prop == "C18":
+            return k in ("remove", "vanish") or (e is not None and 20000 <= e["kind"] < 30000)
+        return True
+    return pred
+
+
 def build_histories(prop, uname, u, n_edges, rnd, conf):
     hs = []
     if n_edges:
-        edges, total = S.sample_edges(uname, n_edges, rnd)
+        edges, total = S.sample_edges(uname, n_edges, rnd, pred=relevant_edge(prop, u), frac=0.6)
         for h in edges:
             for v in S.with_variants(h, rnd, p_reopen=0.2 if prop in ("C04", "C16", "C11") else 0.08,
                                      p_rebuild=0.2 if prop in ("C16", "C11") else 0.05):
